@@ -4,6 +4,7 @@ import (
 	"fmt"
 	"go/token"
 	"go/types"
+	"os"
 
 	"golang.org/x/tools/go/ssa"
 
@@ -320,7 +321,7 @@ func checkC20(c *Ctx) {
 		sorted, overlap := false, false
 		var sortCall ssa.Instruction
 		for _, cs := range Calls(nm) {
-			if sortsAscending(cs.Common(), func(v ssa.Value) bool { return matches(v, Method("Begin", Any())) }) {
+			if sortsAscending(cs.Common(), isBeginKey) {
 				sorted = true
 				sortCall = cs.Instr.(ssa.Instruction)
 			}
@@ -520,13 +521,97 @@ func checkC20(c *Ctx) {
 type blockList struct {
 	begins, lens []int64
 	crash        string
+	// snapshots: which element a block-typed phi / local cell / loaded value
+	// stands for (taken when the phi is entered, the cell stored, the load done)
+	phiElem  map[*ssa.Phi]int64
+	cellElem map[*ssa.Alloc]int64
+	loadElem map[ssa.Value]int64
 }
 
 func (bl *blockList) install(vl *Valuation, isList func(root ssa.Value) bool) {
+	bl.phiElem, bl.cellElem, bl.loadElem = map[*ssa.Phi]int64{}, map[*ssa.Alloc]int64{}, map[ssa.Value]int64{}
+	isBlock := func(t types.Type) bool {
+		if p, ok := t.(*types.Pointer); ok {
+			t = p.Elem()
+		}
+		n, ok := t.(*types.Named)
+		return ok && n.Obj().Name() == "Block"
+	}
 	// element index of a struct value / element address
 	var elemOf func(v ssa.Value) (int64, bool)
+	oldStop := vl.RootStop
+	vl.RootStop = func(v ssa.Value) bool {
+		if p, ok := v.(*ssa.Phi); ok {
+			if _, has := bl.phiElem[p]; has {
+				return true
+			}
+		}
+		if _, has := bl.loadElem[v]; has {
+			return true
+		}
+		return oldStop != nil && oldStop(v)
+	}
+	vl.PhiHook = func(phi *ssa.Phi, incoming ssa.Value) {
+		if !isBlock(phi.Type()) {
+			return
+		}
+		if os.Getenv("MLTLINT_DEBUG") == "bl" {
+			i, ok := elemOf(incoming)
+			fmt.Fprintf(os.Stderr, "bl: phi %s <- %s elem=%d ok=%v\n", phi.Name(), incoming.Name(), i, ok)
+		}
+		if i, ok := elemOf(incoming); ok {
+			bl.phiElem[phi] = i
+		} else {
+			delete(bl.phiElem, phi)
+		}
+	}
+	oldVisit := vl.Visit
+	vl.Visit = func(in ssa.Instruction) {
+		switch x := in.(type) {
+		case *ssa.Store:
+			if al, ok := x.Addr.(*ssa.Alloc); ok && isBlock(al.Type()) && storesToCell(al) > 1 {
+				if i, ok := elemOf(x.Val); ok {
+					bl.cellElem[al] = i
+				} else {
+					delete(bl.cellElem, al)
+				}
+			}
+		case *ssa.UnOp:
+			if al, ok := x.X.(*ssa.Alloc); ok && x.Op == token.MUL && isBlock(al.Type()) {
+				if i, has := bl.cellElem[al]; has {
+					bl.loadElem[x] = i
+				} else {
+					delete(bl.loadElem, x)
+				}
+			}
+		}
+		if oldVisit != nil {
+			oldVisit(in)
+		}
+	}
 	elemOf = func(v ssa.Value) (int64, bool) {
+		if p, ok := Unwrap(v).(*ssa.Phi); ok {
+			if i, has := bl.phiElem[p]; has {
+				return i, true
+			}
+		}
+		if i, has := bl.loadElem[Unwrap(v)]; has {
+			return i, true
+		}
 		r, fr := vl.RootF(v)
+		if p, ok := r.(*ssa.Phi); ok {
+			if i, has := bl.phiElem[p]; has {
+				return i, true
+			}
+		}
+		if i, has := bl.loadElem[r]; has {
+			return i, true
+		}
+		if al, isAl := r.(*ssa.Alloc); isAl {
+			if i, has := bl.cellElem[al]; has {
+				return i, true
+			}
+		}
 		// a struct copied into a local (value receiver, range variable): the
 		// value that was stored into it
 		if al, isAl := r.(*ssa.Alloc); isAl && al.Referrers() != nil {
@@ -538,6 +623,14 @@ func (bl *blockList) install(vl *Valuation, isList func(root ssa.Value) bool) {
 					break
 				}
 			}
+		}
+		if p, ok := r.(*ssa.Phi); ok {
+			if i, has := bl.phiElem[p]; has {
+				return i, true
+			}
+		}
+		if i, has := bl.loadElem[r]; has {
+			return i, true
 		}
 		var ia *ssa.IndexAddr
 		switch x := r.(type) {
@@ -589,6 +682,10 @@ func (bl *blockList) install(vl *Valuation, isList func(root ssa.Value) bool) {
 		if name, base, ok := fieldRead(v); ok && name == "begin" {
 			if i, ok := elemOf(base); ok {
 				return bl.begins[i], true
+			}
+			if os.Getenv("MLTLINT_DEBUG") == "bl" {
+				r, _ := vl.RootF(base)
+				fmt.Fprintf(os.Stderr, "bl: begin of %s (%T) in %s: root %s (%T)\n", base.Name(), base, v.Parent(), r.Name(), r)
 			}
 		}
 		if call, ok := v.(*ssa.Call); ok {
@@ -662,15 +759,63 @@ func checkImageBlocks(c *Ctx, rootName string, spec imageSpec) {
 		c.Fail("C20.load", key, c.Prog.FuncPos(root), "the image is not assembled in a loop over all "+spec.list+" of the file")
 		return
 	}
-	isElem := func(v ssa.Value, chain []*ssa.Call) bool {
-		return DependsOnVia(chain, v, nil, func(x ssa.Value) bool {
-			idx, ok := elemLoadIndex(x, loop.Over)
-			return ok && idx == loop.Key
-		}, nil)
+	primary := loop
+	isElemOfLoop := func(l *RangeLoop) func(v ssa.Value, chain []*ssa.Call) bool {
+		return func(v ssa.Value, chain []*ssa.Call) bool {
+			return DependsOnVia(chain, v, nil, func(x ssa.Value) bool {
+				idx, ok := elemLoadIndex(x, l.Over)
+				if !ok {
+					// the same list loaded again
+					if ld, isLd := Unwrap(x).(*ssa.UnOp); isLd && ld.Op == token.MUL {
+						if ia, isIA := ld.X.(*ssa.IndexAddr); isIA && SameValue(ia.X, l.Over) {
+							idx, ok = ia.Index, true
+						}
+					}
+				}
+				return ok && idx == l.Key
+			}, nil)
+		}
 	}
-	fieldOf := func(name string, v ssa.Value, chain []*ssa.Call) bool {
-		n, base, ok := FieldNameOfLoad(v)
-		return ok && n == name && isElem(base, chain)
+	// a second loop over a local list into which the first loop has put (some
+	// of) the elements: select first, build afterwards
+	derived := map[*RangeLoop]bool{}
+	for _, l := range RangeLoops(root) {
+		if l == primary || l.IsMap || !l.FixedTrips {
+			continue
+		}
+		if _, isSlice := l.Over.Type().Underlying().(*types.Slice); !isSlice {
+			continue
+		}
+		nApp, okAll := 0, true
+		for _, cs := range Calls(root) {
+			bi, isB := cs.Common().Value.(*ssa.Builtin)
+			if !isB || bi.Name() != "append" || !types.Identical(cs.Common().Args[0].Type(), l.Over.Type()) {
+				continue
+			}
+			if !DependsOn(l.Over, func(v ssa.Value) bool { return v == cs.Value() }) {
+				continue
+			}
+			nApp++
+			// what is appended: the stores into the varargs array
+			if sl, isSl := cs.Common().Args[1].(*ssa.Slice); isSl {
+				if arr, isArr := sl.X.(*ssa.Alloc); isArr && arr.Referrers() != nil {
+					for _, r := range *arr.Referrers() {
+						if ia, isIA := r.(*ssa.IndexAddr); isIA && ia.Referrers() != nil {
+							for _, r2 := range *ia.Referrers() {
+								if st, isSt := r2.(*ssa.Store); isSt && !isElemOfLoop(primary)(st.Val, nil) {
+									okAll = false
+								}
+							}
+						}
+					}
+					continue
+				}
+			}
+			okAll = false
+		}
+		if nApp > 0 && okAll {
+			derived[l] = true
+		}
 	}
 	sites := DeepInstrs(root, enter, func(in ssa.Instruction) bool {
 		call, ok := in.(*ssa.Call)
@@ -682,7 +827,7 @@ func checkImageBlocks(c *Ctx, rootName string, spec imageSpec) {
 	}
 	for i, s := range sites {
 		nb := s.Instr.(*ssa.Call)
-		st := &imageState{ok: map[string]bool{}, isElem: isElem}
+		st := &imageState{ok: map[string]bool{}}
 		if spec.dataLenOf != nil {
 			st.dataLen = spec.dataLenOf(s)
 		}
@@ -692,6 +837,17 @@ func checkImageBlocks(c *Ctx, rootName string, spec imageSpec) {
 			at = s.Chain[0]
 		}
 		bad := ""
+		loop, isElem := primary, isElemOfLoop(primary)
+		for l := range derived {
+			if LoopBlocks(l.Header)[at.Block()] {
+				loop, isElem = l, isElemOfLoop(l)
+			}
+		}
+		st.isElem = isElem
+		fieldOf := func(name string, v ssa.Value, chain []*ssa.Call) bool {
+			n, base, ok := FieldNameOfLoad(v)
+			return ok && n == name && isElem(base, chain)
+		}
 		if !LoopBlocks(loop.Header)[at.Block()] {
 			bad = "blocks are not built for every element of " + spec.list
 		}
@@ -767,10 +923,23 @@ func walkOneElement(fn *ssa.Function, loop *RangeLoop, list, readFn string, vals
 		if in.Parent() == fn && in.Block() == loop.Done {
 			left = true
 		}
-		if v, ok := in.(ssa.Value); ok && isRead(v) && !left {
-			kept = true
+		if v, ok := in.(ssa.Value); ok && isRead(v) {
+			kept = true // (also in a later loop over the selected elements)
 		}
 	}
 	res = vl.Walk(fn.Blocks[0], nil)
 	return kept, left, res
+}
+
+// storesToCell counts the whole-value stores to a local cell.
+func storesToCell(al *ssa.Alloc) int {
+	n := 0
+	if al.Referrers() != nil {
+		for _, r := range *al.Referrers() {
+			if st, ok := r.(*ssa.Store); ok && st.Addr == ssa.Value(al) {
+				n++
+			}
+		}
+	}
+	return n
 }
